@@ -697,6 +697,29 @@ def narrow_dtype_stream(ctx):
                     ctx.violation(sig, {"kind": "indexed update with narrow-dtype coordinates differs from the loop-notation meaning", "detail": bad,
                                         "description": "b [h] c, b q, b q", "shapes": [[B, H, C], [B, Q], [B, Q]], "coordinate_dtype": np.dtype(dt).name,
                                         "mode": mode, "backend": backend, "coordinates": idx.tolist()[:6], "updates": u.tolist()[:6]})
+    # the coordinates themselves in a dtype that cannot hold the flat address (the multiplication by the stride happens in
+    # the coordinates' dtype): get_at and set_at on a 20x20 target with int8 coordinates
+    tgt = np.arange(400, dtype=np.int64).reshape(20, 20)
+    co = np.array([[10, 5], [19, 19], [0, 3]], dtype=np.int8)
+    for fn, extra in (("get_at", []), ("set_at", [np.array([-1, -2, -3], dtype=np.int64)])):
+        for backend in BACKENDS:
+            desc = "[b c], p [2] -> p" if fn == "get_at" else "[b c], p [2], p -> [b c]"
+            sig = f"einx.{fn}('{desc}') target 20x20 coordinates dtype=int8 values [[10,5],[19,19],[0,3]] backend={backend}"
+            ctx.count("narrow_dtype_cases")
+            ctx.case(sig, True)
+            try:
+                got = np.asarray(getattr(einx, fn)(desc, tgt.copy(), co.copy(), *[e.copy() for e in extra], backend=backend))
+                if fn == "get_at":
+                    want = np.array([tgt[10, 5], tgt[19, 19], tgt[0, 3]])
+                else:
+                    want = tgt.copy()
+                    want[10, 5], want[19, 19], want[0, 3] = -1, -2, -3
+                bad = None if (got.shape == want.shape and np.array_equal(got, want)) else f"returned {got.reshape(-1)[:6].tolist()}… instead of {want.reshape(-1)[:6].tolist()}…" if fn == "set_at" else f"returned {got.tolist()} instead of {want.tolist()}"
+            except Exception as e:
+                bad = None if is_rejection(e) else f"{type(e).__name__}: {str(e)[:150]}"
+            if bad is not None:
+                ctx.violation(sig, {"kind": "coordinates in a narrow integer dtype address wrong elements", "detail": bad, "description": desc,
+                                    "coordinate_dtype": "int8", "backend": backend})
     return found
 
 
